@@ -198,3 +198,9 @@ Proof.
   - eexists _, _. split; reflexivity.
 Qed.
 Print Assumptions C06_example_wf.
+
+(* the hypothesis `wf_tree 0 t0` is decided by the boolean that the correspondence evaluates on every
+   real parsed tree (check_case = wf_treeb 0 t0 && ...) *)
+Theorem C06_parsed_tree_check (ti : nat) (t : tree) : wf_treeb ti t = true -> wf_tree ti t.
+Proof. exact (wf_treeb_sound ti t). Qed.
+Print Assumptions C06_parsed_tree_check.
